@@ -13,16 +13,19 @@ import (
 
 // Result summarises one execution for the evidence counters.
 type Result struct {
-	Flags       map[string]bool
-	Sig         string
-	Steps       int
-	Ops         int
-	HealRounds  int  // rounds the fair phase needed (C17), -1 if it did not converge
-	Converged   bool // C17 goals reached within the bound
-	Panicked    bool
-	Leaders     int
-	Sample      map[string]interface{}
-	HistoryHash string
+	Flags      map[string]bool
+	Sig        string
+	Steps      int
+	Ops        int
+	HealRounds int  // rounds the fair phase needed (C17), -1 if it did not converge
+	Converged  bool // C17 goals reached within the bound
+	// PremiseFailed: not converged, and some running replica operates under a
+	// membership without a running majority (C17 promises nothing then)
+	PremiseFailed bool
+	Panicked      bool
+	Leaders       int
+	Sample        map[string]interface{}
+	HistoryHash   string
 }
 
 func (s *Sim) witness(what string) interface{} {
@@ -85,13 +88,54 @@ func (g *healGoal) clients() []uint64 {
 	return out
 }
 
+// premise reports whether C17's premise holds at this moment under every
+// membership a running replica still operates under: for each running
+// replica with a non-empty voting set (in its raft view), a majority of that
+// set is running. (A leader that committed and applied its own removal stops
+// at once; if the commit notification was lost, the remaining replicas still
+// operate under the old membership, of which the stopped replica is a
+// needed member - progress is then not promised by C17.)
+func (g *healGoal) premise() (bool, string) {
+	s := g.s
+	for _, id := range s.order {
+		r := s.replicas[id]
+		if !r.alive || r.removed {
+			continue
+		}
+		v := r.peer.VerifView()
+		voting := append(append([]uint64{}, v.Voters...), v.Witnesses...)
+		if len(voting) == 0 {
+			continue
+		}
+		up := 0
+		for _, x := range voting {
+			if o, ok := s.replicas[x]; ok && o.alive && !o.removed {
+				up++
+			}
+		}
+		if up < len(voting)/2+1 {
+			return false, fmt.Sprintf("replica %d operates under voting set %v of which only %d run", id, voting, up)
+		}
+	}
+	return true, ""
+}
+
 // each is called after every fair round; returns true when all goals hold.
 func (g *healGoal) each(round int) bool {
 	s := g.s
 	retryAfter := int(3 * s.opt.ElectionRTT)
 	l := s.mon.someLeader()
 	if l == 0 {
-		g.why = "no leader"
+		g.why = "no leader;"
+		for _, id := range s.order {
+			r := s.replicas[id]
+			if r.alive && !r.removed {
+				v := r.peer.VerifView()
+				g.why += fmt.Sprintf(" [%d %s t%d c%d l%d voters%v nv%v w%v pcc=%v applied=%d]", id, v.Role, v.Term, v.Committed, v.LastIndex, v.Voters, v.NonVotings, v.Witnesses, v.PendingConfigChange, r.rsm.GetLastApplied())
+			} else {
+				g.why += fmt.Sprintf(" [%d alive=%v removed=%v]", id, r.alive, r.removed)
+			}
+		}
 		return false
 	}
 	if g.leaderRound < 0 {
@@ -215,6 +259,10 @@ func RunCase(opt Options, sink Sink, traceOn bool) (res Result) {
 	res.HealRounds = g.doneRound
 	if !res.Converged {
 		res.Sample = map[string]interface{}{"not_converged": g.why}
+		if ok, why := g.premise(); !ok {
+			res.PremiseFailed = true
+			res.Sample["premise_not_met"] = why
+		}
 	}
 	// let everything settle for the final comparisons
 	s.Heal(6*int(opt.ElectionRTT), nil)
